@@ -424,7 +424,7 @@ func TestC14BackToBack(t *testing.T) {
 		var rendered []string
 		mixedOutcomes := map[string]bool{}
 		for op := 0; op < nops; op++ {
-			kind := rapid.SampledFrom([]string{"put", "put", "get", "get", "get", "corrupt", "find", "composite", "ac"}).Draw(t, "op")
+			kind := rapid.SampledFrom([]string{"put", "put", "get", "get", "get", "corrupt", "find", "composite", "ac", "ac"}).Draw(t, "op")
 			oi := rapid.IntRange(0, len(objs)-1).Draw(t, "object")
 			o := objs[oi]
 			vc.Add(kind, oi)
